@@ -154,6 +154,8 @@ def r_module_state(repo, rep, R, rels, consequence, only=None):
                     for kw in n_.keywords:
                         if kw.arg == 'file' and isinstance(kw.value, ast.Name) and kw.value.id in shared_here and kw.value.id not in local:
                             hit = (kw.value.id, 'written to through file=')
+                    if isinstance(n_.func, ast.Name) and n_.func.id == 'next' and n_.args and isinstance(n_.args[0], ast.Name) and n_.args[0].id in shared_here and n_.args[0].id not in local:
+                        hit = (n_.args[0].id, 'drawn from with next()')
                 if isinstance(n_, (ast.Subscript, ast.Attribute)) and isinstance(n_.ctx, (ast.Store, ast.Del)) and isinstance(n_.value, ast.Name) \
                         and n_.value.id in shared_here and n_.value.id not in local:
                     hit = (n_.value.id, 'item / attribute assigned')
